@@ -227,11 +227,25 @@ fn normalise_request(req: &Value) -> Value {
     Value::Object(m)
 }
 
+/// The description text a recorder hands out. The service has to pass it on byte for byte, so the
+/// shape varies with the generated string: no final newline, several, CRLF line ends, trailing blanks,
+/// leading blank lines (hand-written descriptions look like that; texts from .varlink files do not).
+fn desc_text(name: &str, d: &str) -> String {
+    match hash64(&d) % 7 {
+        0 | 1 => format!("interface {}\n# {}\nmethod Foo() -> ()\n", name, d),
+        2 => format!("interface {}\n# {}\nmethod Foo() -> ()", name, d),
+        3 => format!("interface {}\n# {}\nmethod Foo() -> ()\n\n\n", name, d),
+        4 => format!("interface {}\r\n# {}\r\nmethod Foo() -> ()\r\n", name, d),
+        5 => format!("interface {}\n# {}\nmethod Foo() -> ()  \t\n ", name, d),
+        _ => format!("\n\n  interface {}\n# {}\n\n\nmethod Foo() -> ()\n", name, d),
+    }
+}
+
 pub fn run_case(c: &Case) -> Result<(), Fail> {
     let log: Log = Arc::new(Mutex::new(vec![]));
     let mut ifaces: Vec<Box<dyn Interface + Send + Sync>> = vec![];
     for (i, n) in c.names.iter().enumerate() {
-        let desc = format!("interface {}\n# {}\nmethod Foo() -> ()\n", n, c.descs.get(i).cloned().unwrap_or_default());
+        let desc = desc_text(n, &c.descs.get(i).cloned().unwrap_or_default());
         ifaces.push(Box::new(Recorder { name: intern(n), desc: intern(&desc), log: log.clone() }));
     }
     if c.with_generated {
@@ -370,7 +384,7 @@ pub fn run_case(c: &Case) -> Result<(), Fail> {
                         if idxs.len() > 1 {
                             // duplicate registration: the description of either implementation
                             let ok = idxs.iter().any(|i| {
-                                fin_matches(&Fin::Ok(json!({"description": format!("interface {}\n# {}\nmethod Foo() -> ()\n", want_name, c.descs.get(*i).cloned().unwrap_or_default())})), r)
+                                fin_matches(&Fin::Ok(json!({"description": desc_text(want_name, &c.descs.get(*i).cloned().unwrap_or_default())})), r)
                             });
                             if !ok {
                                 return Err(Fail::new("route/desc-wrong", format!("GetInterfaceDescription({}) answered {} which is the text of none of the implementations registered under that name", want_name, r)));
@@ -379,7 +393,7 @@ pub fn run_case(c: &Case) -> Result<(), Fail> {
                         }
                         let idx = idxs.first().cloned();
                         let want = if let Some(i) = idx {
-                            Fin::Ok(json!({"description": format!("interface {}\n# {}\nmethod Foo() -> ()\n", want_name, c.descs.get(i).cloned().unwrap_or_default())}))
+                            Fin::Ok(json!({"description": desc_text(want_name, &c.descs.get(i).cloned().unwrap_or_default())}))
                         } else if want_name == "org.varlink.service" {
                             Fin::Ok(json!({"description": builtin_description()}))
                         } else if let Some(g) = generated.iter().position(|n| *n == want_name) {
